@@ -33,17 +33,24 @@ Fixpoint take_line (l : list Z) : list Z :=
 
 Record calc := mk_calc { c_lineno : Z; c_colno : Z; c_line : list Z; c_linestart : Z; c_lineend : Z }.
 
-(* function lpegrex.calcline(subject, position) *)
+(* function lpegrex.calcline(subject, position).
+   CALCLINE_EXCLUSIVE (repaired code): only the newlines strictly before the position count
+   (subject:sub(1, position-1)) and the end of the line is searched from the position itself;
+   otherwise (old code) the prefix includes the position and the search starts after it. *)
+Definition calc_split (p : Z) : Z :=
+  if CALCLINE_EXCLUSIVE then (if 0 <? p then p - 1 else 0) else p.
+
 Definition calcline (text : list Z) (pos : Z) : option calc :=
   if pos <? 0 then None            (* error 'invalid position' *)
   else
     let p := Z.min pos (len text) in
-    let prefix := firstn (Z.to_nat p) text in           (* subject:sub(1,position) *)
-    let rest := skipn (Z.to_nat p) text in
+    let q := calc_split p in
+    let prefix := firstn (Z.to_nat q) text in
+    let rest := skipn (Z.to_nat q) text in
     let lastpos := last_nl prefix in
-    let tail := take_line rest in                        (* up to subject:find("\n", position+1, true) *)
+    let tail := take_line rest in
     Some (mk_calc (count_nl prefix + 1) (p - lastpos)
-                  (skipn (Z.to_nat lastpos) prefix ++ tail) (lastpos + 1) (p + len tail)).
+                  (skipn (Z.to_nat lastpos) prefix ++ tail) (lastpos + 1) (q + len tail)).
 
 (* number of lines of a text: a trailing newline starts a last, empty line *)
 Definition lines (text : list Z) : Z := count_nl text + 1.
@@ -74,6 +81,61 @@ Fixpoint drop_space (l : list Z) : list Z :=
 (* tonumber(s, 16): lua_Unsigned accumulation, wraps modulo 2^64 *)
 Definition hexval (l : list Z) : Z := fold_left (fun n c => (n * 16 + hexv c) mod 2 ^ 64) l 0.
 
+Fixpoint span_zero (l : list Z) : list Z * list Z :=
+  match l with
+  | c :: r => if c =? 48 then let (a, b) := span_zero r in (c :: a, b) else ([], l)
+  | [] => ([], [])
+  end.
+(* exactly k hex digits / at most k hex digits (greedy, no backtracking: PEG) *)
+Fixpoint take_hex_exact (k : nat) (l : list Z) : option (list Z * list Z) :=
+  match k with
+  | O => Some ([], l)
+  | S k' => match l with
+            | c :: r => if is_hex c then
+                          match take_hex_exact k' r with Some (a, b) => Some (c :: a, b) | None => None end
+                        else None
+            | [] => None
+            end
+  end.
+Fixpoint take_hex_upto (k : nat) (l : list Z) : list Z * list Z :=
+  match k with
+  | O => ([], l)
+  | S k' => match l with
+            | c :: r => if is_hex c then let (a, b) := take_hex_upto k' r in (c :: a, b) else ([], l)
+            | [] => ([], [])
+            end
+  end.
+
+Definition in_rng (d : Z) (r : Z * Z) : bool := (fst r <=? d - 48) && (d - 48 <=? snd r).
+Fixpoint dec3_match (alts : list ((Z * Z) * (Z * Z) * (Z * Z))) (d1 d2 d3 : Z) : bool :=
+  match alts with
+  | [] => false
+  | (r1, r2, r3) :: rest => (in_rng d1 r1 && in_rng d2 r2 && in_rng d3 r3) || dec3_match rest d1 d2 d3
+  end.
+
+(* '{' &HEX {'0'* ([0-L] HEX^T / HEX^-T)} '}' : the digits captured, and what follows them *)
+Definition u_bounded_digits (r1 : list Z) : option (list Z * list Z) :=
+  match r1 with
+  | h :: _ =>
+    if is_hex h then
+      let (zs, r2) := span_zero r1 in
+      let alt1 := match r2 with
+                  | d :: t => if (48 <=? d) && (d <=? 48 + U_LEAD_MAX) then
+                                match take_hex_exact (Z.to_nat U_TAIL_DIGITS) t with
+                                | Some (ds, r3) => Some (zs ++ d :: ds, r3)
+                                | None => None
+                                end
+                              else None
+                  | [] => None
+                  end in
+      match alt1 with
+      | Some x => Some x
+      | None => let (ds, r3) := take_hex_upto (Z.to_nat U_TAIL_DIGITS) r2 in Some (zs ++ ds, r3)
+      end
+    else None
+  | [] => None
+  end.
+
 Fixpoint assoc (c : Z) (l : list (Z * Z)) : option Z :=
   match l with [] => None | (k, v) :: r => if k =? c then Some v else assoc c r end.
 
@@ -93,21 +155,27 @@ Definition decode_escape (l : list Z) : esc :=
       else if c =? 117 then                             (* 'u' '{' {HEX_DIGIT^+1} '}' *)
         match r with
         | 123 :: r1 =>
-          match span_hex r1 with
-          | ((_ :: _) as digs, 125 :: r3) => EUtf8 (hexval digs) r3
-          | _ => EReject
-          end
+          if U_BOUNDED then
+            match u_bounded_digits r1 with
+            | Some (digs, 125 :: r3) => EUtf8 (hexval digs) r3
+            | _ => EReject
+            end
+          else
+            match span_hex r1 with
+            | ((_ :: _) as digs, 125 :: r3) => EUtf8 (hexval digs) r3
+            | _ => EReject
+            end
         | _ => EReject
         end
       else if c =? 122 then ESkip (drop_space r)        (* 'z' SPACE* *)
-      else if is_dec c then                             (* DEC DEC^-1 !DEC / [0..DEC3_LEAD_MAX] DEC^2 *)
+      else if is_dec c then                             (* DEC DEC^-1 !DEC / the 3-digit alternatives DEC3_ALTS *)
         match r with
         | d2 :: r2 =>
           if is_dec d2 then
             match r2 with
             | d3 :: r3 =>
               if is_dec d3 then
-                (if c - 48 <=? DEC3_LEAD_MAX then EChar (100 * (c - 48) + 10 * (d2 - 48) + (d3 - 48)) r3 else EReject)
+                (if dec3_match DEC3_ALTS c d2 d3 then EChar (100 * (c - 48) + 10 * (d2 - 48) + (d3 - 48)) r3 else EReject)
               else EChar (10 * (c - 48) + (d2 - 48)) r2
             | [] => EChar (10 * (c - 48) + (d2 - 48)) r2
             end
